@@ -217,3 +217,94 @@ Proof.
         apply CP.near_seg_cover; [lia| |exact Hn].
         pose proof (manhattan_chain ps Hman) as Hm. rewrite Forall_forall in Hm. exact (Hm (a, b) Hin).
 Qed.
+
+(** The place where the (repaired) exporter puts a shape's label. *)
+Definition label_of (s : shape) : option point :=
+  match label_location xcfg_fixed s with Ok p => Some p | _ => None end.
+
+Lemma label_inside_nz s p :
+  shape_okb s = true -> label_location xcfg_fixed s = Ok p -> in_region_shape_nz s p.
+Proof.
+  intros Hs Hl. destruct s as [p0 p1|ps|ps w].
+  - exact (rect_label_inside _ _ _ _ Hl).
+  - cbn [label_location xcfg_fixed x_contains_orig] in Hl. apply poly_label_sound in Hl.
+    unfold poly_contains_v in Hl. cbn [in_region_shape_nz].
+    destruct (Contains.poly_contains (map pt2 ps) (pt2 p)) as [b| |] eqn:E; try discriminate. injection Hl as ->.
+    apply (CP.poly_contains_nz _ _ _ E). reflexivity.
+  - cbn [shape_okb] in Hs. repeat (apply andb_prop in Hs; destruct Hs as [Hs ?]).
+    apply (path_label_inside _ _ _ _ Hl). assumption.
+Qed.
+
+Lemma all_some_in {A B} (f : A -> option B) : forall l r x,
+  all_some (map f l) = Some r -> In x l -> exists y, f x = Some y /\ In y r.
+Proof.
+  induction l as [|a t IH]; intros r x H Hx; [destruct Hx|]. cbn [map all_some] in H.
+  destruct (f a) as [b|] eqn:Fa; [|discriminate]. destruct (all_some (map f t)) as [bs|] eqn:E; [|discriminate].
+  injection H as <-. destruct Hx as [<-|Hx].
+  - exists b. split; [exact Fa|left; reflexivity].
+  - destruct (IH _ _ eq_refl Hx) as [y [H1 H2]]. exists y. split; [exact H1|right; exact H2].
+Qed.
+
+Section LayoutSpec.
+  Variable c : RG.cfg.
+  Variable ly : layers.
+  Variable cells : list cell.
+  Variable cm : RG.cell_map.
+  Variable l : layout.
+  Variable g : GdsData.gstruct.
+  Variable ev : list velem.
+  Hypothesis Hc : RG.fx_contains c = true.
+  Hypothesis Hly : layers_okb ly = true.
+  Hypothesis Hexp : export_layout xcfg_fixed ly cells l = Ok g.
+  Hypothesis Helems : forallb (elem_okb ly) (lay_elems l) = true.
+  Hypothesis Hcm : forall i ci, In i (lay_insts l) -> nth_error cells (i_cell i) = Some ci ->
+                     exists idx, RG.cm_get cm (bytes_of_string (c_name ci)) = Some idx.
+  Hypothesis Hview : all_some (map (elem_view ly) (lay_elems l)) = Some ev.
+  Hypothesis Hunamb : unambiguous_view_gen in_region_shape_nz label_of ev.
+
+  Lemma elem_shape_okb_of e : In e (lay_elems l) -> shape_okb (e_shape e) = true.
+  Proof.
+    intros He. rewrite forallb_forall in Helems. specialize (Helems e He). unfold elem_okb in Helems.
+    apply andb_prop in Helems as [_ H]. destruct (e_net e); [|exact H].
+    apply andb_prop in H as [H _]. apply andb_prop in H as [H _]. unfold named_shape_okb in H.
+    apply andb_prop in H as [H _]. exact H.
+  Qed.
+
+  Theorem layout_roundtrip_spec :
+    exists l', RG.import_layout c cm ly g = RG.IOk (ly, l') /\
+               lay_name l' = lay_name l /\
+               Forall2 (inst_rel cells cm) (lay_insts l) (lay_insts l') /\
+               Forall2 (elem_rel ly) (lay_elems l) (lay_elems l') /\
+               lay_annots l' = [].
+  Proof.
+    apply (layout_roundtrip_model c ly cells cm l g Hly Hexp); [| exact Hcm | | |].
+    - apply Forall_forall. intros e He. pose proof (elem_shape_okb_of e He) as Hs. unfold elem_shape_ok.
+      destruct (e_shape e) as [p0 p1|ps|ps w]; try exact I. cbn [shape_okb] in Hs.
+      repeat (apply andb_prop in Hs; destruct Hs as [Hs ?]).
+      split; [apply Nat.leb_le; assumption|apply Z.leb_le; assumption].
+    - intros ej nm loc ek Hej Hn Hloc H32 Hek.
+      destruct (contains_region c (e_shape ek) loc Hc (elem_shape_okb_of ek Hek) H32) as [b [Hb _]].
+      exists b. exact Hb.
+    - intros ej nm loc Hej Hn Hloc H32.
+      destruct (contains_region c (e_shape ej) loc Hc (elem_shape_okb_of ej Hej) H32) as [b [Hb Hiff]].
+      unfold ishape. rewrite Hb. f_equal. apply Hiff. apply label_inside_nz; [apply elem_shape_okb_of; exact Hej|exact Hloc].
+    - intros ej nm loc ek Hej Hn Hloc H32 Hek Hnum Hcont.
+      destruct (contains_region c (e_shape ek) loc Hc (elem_shape_okb_of ek Hek) H32) as [b [Hb Hiff]].
+      unfold ishape in Hcont. rewrite Hb in Hcont. injection Hcont as ->.
+      destruct (all_some_in _ _ _ ej Hview Hej) as [vj [Hvj Hinj]].
+      destruct (all_some_in _ _ _ ek Hview Hek) as [vk [Hvk Hink]].
+      unfold elem_view in Hvj, Hvk.
+      destruct (resolve_lp ly (e_layer ej) (e_purpose ej)) as [[nj xj]|] eqn:Rj; [|discriminate]. injection Hvj as <-.
+      destruct (resolve_lp ly (e_layer ek) (e_purpose ek)) as [[nk xk]|] eqn:Rk; [|discriminate]. injection Hvk as <-.
+      assert (Hnk : nk = nj).
+      { unfold resolve_lp in Rj, Rk. unfold key_num in Hnum.
+        destruct (ly_get ly (e_layer ej)) as [lj|]; [|discriminate]. destruct (ly_get ly (e_layer ek)) as [lk|]; [|discriminate].
+        destruct (layer_pnum lj (e_purpose ej)); [|discriminate]. destruct (layer_pnum lk (e_purpose ek)); [|discriminate].
+        cbn in Hnum. injection Rj as <- _. injection Rk as <- _. congruence. }
+      pose proof (Hunamb (mkvelem nj xj (e_shape ej) (e_net ej)) nm loc (mkvelem nk xk (e_shape ek) (e_net ek)) Hinj) as Hu. cbn [v_net v_shape v_lnum] in Hu.
+      assert (Hlab : label_of (e_shape ej) = Some loc) by (unfold label_of; rewrite Hloc; reflexivity).
+      specialize (Hu Hn Hlab Hink Hnk (proj1 Hiff eq_refl)).
+      destruct (e_net ek) as [nm'|]; [|discriminate]. cbn [option_map] in Hu. injection Hu as Hu.
+      exists nm'. split; [reflexivity|exact Hu].
+  Qed.
+End LayoutSpec.
